@@ -26,6 +26,10 @@ pub mod c14;
 pub mod c18;
 pub mod c04;
 pub mod c03p;
+pub mod c10;
+pub mod c13;
+#[cfg(feature = "facades")]
+pub mod c20;
 
 pub fn registry() -> Vec<(&'static str, fn())> {
     let mut v = Vec::new();
@@ -42,6 +46,14 @@ pub fn registry() -> Vec<(&'static str, fn())> {
     v.extend_from_slice(c03p::LIST);
     v.extend_from_slice(c03p::d8::LIST);
     v.extend_from_slice(c03p::d8m::LIST);
+    v.extend_from_slice(c10::LIST);
+    v.extend_from_slice(c10::z::LIST);
+    v.extend_from_slice(c10::wide::LIST);
+    v.extend_from_slice(c10::en::LIST);
+    v.extend_from_slice(c13::LIST);
+    v.extend_from_slice(c13::fl::LIST);
+    #[cfg(feature = "facades")]
+    { v.extend_from_slice(c20::LIST); v.extend_from_slice(c20::dz::LIST); v.extend_from_slice(c20::d::LIST); v.extend_from_slice(c20::zz::LIST); }
     #[cfg(feature = "codecs")]
     v.extend_from_slice(c04::arb::LIST);
     v
